@@ -437,6 +437,10 @@ func checkC10(cc *c10Case) (ds []hx.Discrepancy, exp *hx.Expect, res map[string]
 		case "undeclared-arg":
 			if _, has := call.HasArgs[df.Name]; has {
 				add("resolver-invoked", "", "resolver received the undeclared argument %q: %+v%s", df.Name, call, ctx())
+			} else if call.Key == "dfct" {
+				// ("rejected, never resolved": dropping the argument and resolving the selection
+				// anyway - for a later member of a list, say - is not rejecting it)
+				add("resolver-invoked", "", "the selection with the undeclared argument %q was resolved (the argument dropped): %+v%s", df.Name, call, ctx())
 			}
 		case "omitted-required-arg":
 			if call.Key == "dfct" {
